@@ -40,6 +40,7 @@ Proof. exact fwd_zero_is_identity. Qed.
 Theorem C10_fwd_tiny_is_identity : forall r : vec3 R,
   vnorm ROps r < rod_eps ROps -> rodrigues_fwd ROps r = I3 ROps.
 Proof. exact fwd_tiny_is_identity. Qed.
+(* end definitional *)
 Theorem C10_fwd_tiny_error_bound : forall r v : vec3 R, 0 < vnorm ROps r < rod_eps ROps ->
   vnorm ROps (vsub ROps
      (m3apply ROps (rod_matrix ROps (cos (vnorm ROps r)) (sin (vnorm ROps r)) (rod_axis ROps r)) v)
@@ -86,11 +87,11 @@ Theorem C10_inv_zero_zone_maps_back : forall proj (m : mat3 R), proj_ok proj -> 
 Proof. exact inv_zero_zone. Qed.
 (* half-turn zone (c <= 0), not an exact half-turn.  Proved: a vector is returned, its length is exactly the rotation
    angle acos((tr R - 1)/2) of R (in [pi/2, pi]), so mapping it back gives a rotation by the right angle.
-   Missing: the entrywise bound on R - fwd(v).  Trying to prove it exposed a genuine defect of the original sign tests
-   (fixes/C10-halfturn-sign-from-symmetric-part.diff: error 4e-3 for axis (1e-3, 2e-3, 1), angle pi - 9e-6); the model is
-   the repaired code.  For the repaired code the paper argument gives |R - fwd v|_max <= 2 s + 2 sqrt(1 + c) <= 4 s < 4e-5
-   (2 s is attained: the first component is forced >= 0, so the axis may come back as -k, i.e. the angle as pi + eps);
-   not mechanised -- sampled by the oracle (kinds inv_of_fwd, inv_threshold, inv_halfturn_two_small) against 2.5e-5. *)
+   Missing: the entrywise bound |R - fwd(v)|_max <= 2.5e-5 itself.  Status: not mechanised.  Measured supremum on the repaired
+   code (/repo 1246e74; second audit, 22 000 axes x 7 offsets + directed sweeps): sqrt(5) s = 2.236e-5 (axis with one zero
+   component and negative leading component, offset -> 1e-5), i.e. the clause holds with 11 % margin.  A paper argument gives
+   only 2 s + 2 sqrt(1 + c) <= 4 s = 4e-5, which does NOT establish 2.5e-5: the figure rests on sampling (oracle kinds
+   inv_of_fwd, inv_threshold, inv_halfturn_two_small).  Before 1246e74 the clause failed by 4e-3 (sign tests on r[i,j] alone). *)
 Theorem C10_inv_halfturn_zone_partial : forall proj (m : mat3 R), proj_ok proj -> proper m ->
   rod_inv_s ROps m < rod_small ROps -> rod_inv_c ROps m <= 0 ->
   exists v, rodrigues_inv ROps proj m = Some v /\
@@ -105,12 +106,20 @@ Theorem C10_inv_of_fwd_zero_zone : forall proj (r : vec3 R), proj_ok proj ->
   vnorm ROps (vsub ROps (vzero ROps) r) <= rod_small ROps * (1 + rod_small ROps) /\
   rod_small ROps * (1 + rod_small ROps) < 25 / 1000000.
 Proof. exact inv_of_fwd_zero_zone_full. Qed.
-(* Next to pi: a vector of exactly the length |r| comes back.  Missing: its direction is within 2.5e-5 of r/|r| or of
-   -r/|r| (the sign may flip only at a half-turn, where k and -k are the same rotation). *)
+(* Next to pi (pi - 1e-5 < |r| < pi): a vector of exactly the length |r| comes back -- but NOT r itself in general: the first
+   component of the returned axis is forced >= 0, so for half of all axes the result is about -r (2 pi away from r), in the
+   whole open zone, where k and -k are different rotations (they differ by a turn of 2 (pi - |r|) < 2e-5, which is why the
+   MATRIX still maps back within 2.5e-5).  "vector to matrix to vector is the identity for |r| < pi" is therefore false as
+   written on this zone: C10_inv_of_fwd_halfturn_zone_refuted below, known finding halfturn_zone_axis_flip. *)
 Theorem C10_inv_of_fwd_halfturn_zone_partial : forall proj (r : vec3 R), proj_ok proj ->
   rod_eps ROps <= vnorm ROps r <= PI -> sin (vnorm ROps r) < rod_small ROps -> cos (vnorm ROps r) <= 0 ->
   exists v, rodrigues_inv ROps proj (rodrigues_fwd ROps r) = Some v /\ vnorm ROps v = vnorm ROps r.
 Proof. exact inv_of_fwd_halfturn_zone. Qed.
+
+Theorem C10_inv_of_fwd_halfturn_zone_refuted :
+  exists r : vec3 R, 0 < vnorm ROps r < PI /\ PI - rod_small ROps < vnorm ROps r /\
+    forall proj, proj_ok proj -> exists v, rodrigues_inv ROps proj (rodrigues_fwd ROps r) = Some v /\ v <> r.
+Proof. exact inv_of_fwd_halfturn_zone_refuted. Qed.
 
 (* ---- Jacobians -------------------------------------------------------------------------------------- *)
 (* "the Jacobian it can return equals the derivative of that map": for every rotation vector with |r| > eps, every
@@ -184,6 +193,7 @@ Theorem C10_cv2_dispatch : forall proj (a : ndarr) jac,
   (nd_size a = 3%nat -> cv2_rodrigues ROps proj a jac = r2m_entry ROps a jac) /\
   (nd_shape a = [3%nat; 3%nat] -> cv2_rodrigues ROps proj a jac = m2r_entry ROps proj a jac).
 Proof. intros proj a jac. exact (conj (cv2_dispatch_vector proj a jac) (cv2_dispatch_matrix proj a jac)). Qed.
+(* end definitional *)
 Theorem C10_cv2_rejects_other_shapes : forall proj (a : ndarr) jac,
   nd_size a <> 3%nat -> nd_shape a <> [3%nat; 3%nat] -> cv2_rodrigues ROps proj a jac = Raise ValueError.
 Proof. exact cv2_rejects_other_shapes. Qed.
@@ -248,7 +258,7 @@ Qed.
 
 Definition C10_all := (C10_fwd_proper, C10_fwd_fixes_axis, C10_fwd_fixes_vector, C10_fwd_turns_perp,
   C10_fwd_zero_is_identity, C10_fwd_tiny_is_identity, C10_fwd_tiny_error_bound, C10_inv_of_fwd, C10_fwd_of_inv_generic, C10_inv_norm_le_pi, C10_half_turn_roundtrip, C10_inv_defined_and_short, C10_inv_zero_zone_maps_back,
-  C10_inv_halfturn_zone_partial, C10_inv_of_fwd_zero_zone, C10_fwd_jacobian_at_zero, C10_inv_of_fwd_halfturn_zone_partial, C10_jacobians_compose_zero_zone,
+  C10_inv_halfturn_zone_partial, C10_inv_of_fwd_zero_zone, C10_fwd_jacobian_at_zero, C10_inv_of_fwd_halfturn_zone_partial, C10_inv_of_fwd_halfturn_zone_refuted, C10_jacobians_compose_zero_zone,
   C10_fwd_jacobian_is_derivative, C10_rodrigues_formula_derivative, C10_fwd_jacobian_tiny_partial,
   C10_jacobians_compose_to_identity, C10_jacobians_compose_of_vector, C10_jacobians_compose_at_identity,
   C10_jacobians_compose_halfturn_refuted, C10_cv2_dispatch, C10_cv2_rejects_other_shapes,
